@@ -3,7 +3,7 @@ from ..absint import Int, Adt, Atom, Tup, Ref, Abort, ty_from_str, lin_add
 from .. import load, mir
 from . import io_rules as io
 from .c14 import classify, nrange
-from .c15 import saved_locals_rule
+from . import coro
 
 SYNC = 'minicbor_io::async_writer::AsyncWriter::<W>::sync::{closure#0}'
 WRITE = 'minicbor_io::async_writer::AsyncWriter::<W>::write_with::{closure#0}'
@@ -32,12 +32,8 @@ def sync_rule(ctx, prog):
         ctx.fail_closed('T-SYNC', 'pre-transform body of AsyncWriter::sync not exported')
         return 0
     where = mir.loc(inst['sp'])
-    saved_locals_rule(ctx, 'F-AWAIT', inst, ("futures_util::io::Write<",))
-    heads = io.loop_heads(inst['body'])
-    cut = heads[0][1] if heads else ()
-    total = 0
-    for start in ('None', 'WriteFrom'):
-        def setup(m, st, args, start=start):
+    def mk_setup(start):
+        def setup(m, st, args):
             if start == 'None':
                 stv = Adt(STATE, 0, [])
             else:
@@ -45,11 +41,22 @@ def sync_rule(ctx, prog):
                 stv = Adt(STATE, 1, [Int.sym(o)])
             mk_self(prog, m, st, stv)
             return [Tup([Ref(('arg', 'self'), (), True)]), Atom('resume')]
-        try:
-            m, outs = io.run_io(prog, inst, cut, setup)
-        except Abort as e:
-            ctx.fail_closed('T-SYNC', 'sync cannot be summarised from %s: %s' % (start, e))
-            continue
+        return setup
+    try:
+        runs, table, notes = coro.explore(prog, inst, [(s_, mk_setup(s_)) for s_ in ('None', 'WriteFrom')])
+    except coro.LoopState as e:
+        ctx.violation('F-AWAIT', 'sync|loop-state', str(e), where)
+        return 0
+    except Abort as e:
+        ctx.fail_closed('T-SYNC', 'sync cannot be summarised: %s' % e)
+        return 0
+    ctx.notes.extend(notes)
+    for (hk, sid), g in sorted(table.items(), key=repr):
+        ctx.ok('F-AWAIT', 'sync|generic|%s|%s' % (hk[0].split('::')[-2], sid))
+    ctx.floor('F-AWAIT', 'generic loop arrivals of sync', len(table), 1)
+    total = 0
+    for start in ('None', 'WriteFrom'):
+        m, outs = runs[start]
         total += len(outs)
         o0 = Int.sym('o')
         for o in outs:
@@ -124,24 +131,19 @@ def write_rule(ctx, prog):
         ctx.fail_closed('T-AWRITE', 'pre-transform body of AsyncWriter::write_with not exported')
         return 0
     where = mir.loc(inst['sp'])
-    # across the await of sync() only references, the prefix bytes and the sync future itself may live
-    n = 0
-    for s in inst.get('saved', []):
-        ts = s.get('s', '')
-        n += 1
-        if ts.startswith('&') or ts == '[u8; 4]' or ts.startswith('impl ') or 'async fn body' in ts:
-            ctx.ok('F-AWAIT', 'write_with|saved|' + ts, nontrivial=False)
-        else:
-            ctx.violation('F-AWAIT', 'write_with|saved|' + ts, 'a value of type %s lives across the await in write_with' % ts, mir.loc(s.get('sp')))
-
     def setup(m, st, args):
         mk_self(prog, m, st, Adt(STATE, 0, []))
         return [Tup([Ref(('arg', 'self'), (), True), Atom('val'), Ref(('arg', 'ctx'), (), True)]), Atom('resume')]
     try:
-        m, outs = io.run_io(prog, inst, (), setup)
+        runs, table, notes = coro.explore(prog, inst, [('None', setup)], summarised=(SYNC,))
+        m, outs = runs['None']
+    except coro.LoopState as e:
+        ctx.violation('F-AWAIT', 'write_with|loop-state', str(e), where)
+        return 0
     except Abort as e:
         ctx.fail_closed('T-AWRITE', 'write_with cannot be summarised: %s' % e)
         return 0
+    ctx.notes.extend(notes)
     seen = set()
     for o in outs:
         evs = o.st.events
